@@ -213,6 +213,7 @@ def _for_head(e, s, h, lspec, k, var, iv, start, stop, step, parallel, entry, el
     if elems is not None:
         sa = elems.stream
         b.env[s.target.id] = Arr(sa.base, [('r', elems.cut(iv), elems.cut(iv + 1) - elems.cut(iv))], sa.ety, sa.dt, True)
+    b.env['__inv_clauses__'] = list(lspec.invariant)
     b.env['__iter_start__'] = St(dict(b.env), dict(b.heap), b.pc)
     saved_ctx = e.prange_ctx
     saved_hints = e.cur_body_asserts
